@@ -59,12 +59,14 @@ type c25Res struct {
 	snapB   []byte
 	snapS   string
 	snapKey string
+	// the call wrote into its caller's data, or its result is a view of it
+	inputViol *c25Viol
 }
 
 // c25RetKinds: judged kinds first (results compared and retained), then the failing forms.
 var c25RetKinds = []string{
 	"seal-crypto", "seal-keys", "encrypt-crypto", "encrypt-keys", "decrypt-crypto", "decrypt-keys",
-	"sendkey-crypto", "sendkey-keys", "verity", "validate-crypto", "validate-keys", "validate-tampered-crypto", "validate-tampered-keys",
+	"sendkey-crypto", "sendkey-keys", "verity", "validate-crypto", "validate-keys", "validate-tampered-crypto", "validate-tampered-keys", "validate-tampered-payload-crypto", "validate-tampered-payload-keys",
 	// history only
 	"seal-nil-crypto", "seal-nil-packet", "seal-short-keys", "sendkey-nil-crypto", "encrypt-nil-crypto", "decrypt-not-base64", "decrypt-wrong-key", "decrypt-nil-crypto", "validate-nil-packet",
 }
@@ -78,7 +80,7 @@ func c25Fam(kind string) string {
 }
 
 func c25RetJudged(kind string) bool {
-	for _, k := range c25RetKinds[:13] {
+	for _, k := range c25RetKinds[:15] {
 		if k == kind {
 			return true
 		}
@@ -106,6 +108,8 @@ type c25Retain struct {
 	refs  map[c25Call]c25Res
 	stop  bool
 	first map[string]int64
+	// the caller-side buffers every call's inputs are placed in (overwritten between calls)
+	bufPlain, bufCipher, bufSealed []byte
 }
 
 func c25CopyRecv(p *frame.RecvPacket) *frame.RecvPacket {
@@ -185,7 +189,45 @@ func c25ErrClass(err error) string {
 func (h *c25Retain) run(c c25Call) (res c25Res) {
 	sess := h.sess[c.Sess]
 	other := h.sess[1-c.Sess]
-	in := h.in[[2]int{c.Sess, c.Len}]
+	pristine := h.in[[2]int{c.Sess, c.Len}]
+	// The caller's data lives in ONE set of buffers that every call of the sequence reuses and
+	// that is overwritten in place as soon as the call has returned (a connection's scratch).
+	var in c25RetInput
+	in.plain = h.bufPlain[:len(pristine.plain0)]
+	copy(in.plain, pristine.plain0)
+	in.cipher = h.bufCipher[:len(pristine.cipher0)]
+	copy(in.cipher, pristine.cipher0)
+	sealedPayload := h.bufSealed[:len(pristine.sealedPayload0)]
+	copy(sealedPayload, pristine.sealedPayload0)
+	recv, send, bad, sealed := *pristine.recv0, *pristine.send0, *pristine.bad0, *pristine.sealed
+	recv.Payload, send.Payload, bad.Payload, sealed.Payload = in.plain, in.cipher, in.cipher, sealedPayload
+	in.recv, in.send, in.bad, in.sealed = &recv, &send, &bad, &sealed
+	defer func() {
+		// inputs untouched by the call?
+		switch {
+		case !bytes.Equal(in.plain, pristine.plain0):
+			res.inputViol = &c25Viol{"C25:call-modified-input-plaintext", fmt.Sprintf("%v modified the caller's plaintext", c)}
+		case !bytes.Equal(in.cipher, pristine.cipher0) || !bytes.Equal(sealedPayload, pristine.sealedPayload0):
+			res.inputViol = &c25Viol{"C25:call-modified-input-ciphertext", fmt.Sprintf("%v modified the caller's ciphertext", c)}
+		case !c25RecvEqual(&recv, pristine.recv0):
+			res.inputViol = &c25Viol{"C25:seal-recv-modified-input", fmt.Sprintf("%v modified the caller's RECV packet", c)}
+		case !c25SendEqual(&send, pristine.send0) || !c25SendEqual(&bad, pristine.bad0):
+			res.inputViol = &c25Viol{"C25:call-modified-input-send-packet", fmt.Sprintf("%v modified the caller's SEND packet", c)}
+		}
+		// the caller reuses its buffers
+		for _, b := range [][]byte{h.bufPlain, h.bufCipher, h.bufSealed} {
+			for i := range b {
+				b[i] = 0xEE
+			}
+		}
+		now := res.b
+		if res.pkt != nil {
+			now = res.pkt.Payload
+		}
+		if res.inputViol == nil && c25RetJudged(c.Kind) && (!bytes.Equal(now, res.snapB) || res.s != res.snapS) {
+			res.inputViol = &c25Viol{"C25:result-aliases-caller-input", fmt.Sprintf("the result of %v changed when the caller overwrote its own input buffers after the call returned: was %q / %q, now %q / %q", c, c25Clip(res.snapB), res.snapS, c25Clip(now), res.s)}
+		}
+	}()
 	var err error
 	if p := ev.Recover(func() {
 		switch c.Kind {
@@ -215,6 +257,19 @@ func (h *c25Retain) run(c c25Call) (res c25Res) {
 			err = wkprotoenc.ValidateSendPacketWithCrypto(in.bad, sess.server)
 		case "validate-tampered-keys":
 			err = wkprotoenc.ValidateSendPacket(in.bad, sess.serverKeys)
+		case "validate-tampered-payload-crypto", "validate-tampered-payload-keys":
+			// same header, same message key, same caller buffer: one ciphertext bit differs
+			if len(in.cipher) > 0 {
+				in.cipher[len(in.cipher)/2] ^= 0x04
+			}
+			if c.Kind == "validate-tampered-payload-crypto" {
+				err = wkprotoenc.ValidateSendPacketWithCrypto(in.send, sess.server)
+			} else {
+				err = wkprotoenc.ValidateSendPacket(in.send, sess.serverKeys)
+			}
+			if len(in.cipher) > 0 {
+				in.cipher[len(in.cipher)/2] ^= 0x04
+			}
 		case "seal-nil-crypto":
 			res.pkt, err = wkprotoenc.SealRecvPacketWithCrypto(in.recv, nil)
 		case "seal-nil-packet":
@@ -266,7 +321,7 @@ func (h *c25Retain) atReturn(c c25Call, res c25Res, hist string) *c25Viol {
 	fam := c25Fam(c.Kind)
 	if res.class != c25RetWantClass(c.Kind) {
 		if strings.HasPrefix(c.Kind, "validate-tampered") {
-			return &c25Viol{"C25:history:tampered-send-accepted", fmt.Sprintf("%v after [%s]: a SEND with a flipped message-key bit validates", c, hist)}
+			return &c25Viol{"C25:history:tampered-send-accepted", fmt.Sprintf("%v after [%s]: a SEND with a flipped message-key / ciphertext bit validates", c, hist)}
 		}
 		return &c25Viol{"C25:history:" + fam + "-fails-after-other-calls", fmt.Sprintf("%v after [%s]: %s; on the fresh state it succeeds", c, hist, res.class)}
 	}
@@ -354,24 +409,6 @@ func (h *c25Retain) later(c c25Call, res c25Res, after string) *c25Viol {
 	return nil
 }
 
-// inputsIntact: no call may write into its caller's data.
-func (h *c25Retain) inputsIntact(c c25Call) *c25Viol {
-	in := h.in[[2]int{c.Sess, c.Len}]
-	switch {
-	case !bytes.Equal(in.plain, in.plain0):
-		return &c25Viol{"C25:call-modified-input-plaintext", fmt.Sprintf("%v modified the caller's plaintext", c)}
-	case !bytes.Equal(in.cipher, in.cipher0):
-		return &c25Viol{"C25:call-modified-input-ciphertext", fmt.Sprintf("%v modified the caller's ciphertext", c)}
-	case !c25RecvEqual(in.recv, in.recv0):
-		return &c25Viol{"C25:seal-recv-modified-input", fmt.Sprintf("%v modified the caller's RECV packet", c)}
-	case !bytes.Equal(in.sealed.Payload, in.sealedPayload0):
-		return &c25Viol{"C25:call-modified-input-ciphertext", fmt.Sprintf("%v modified the caller's sealed RECV payload", c)}
-	case !c25SendEqual(in.send, in.send0) || !c25SendEqual(in.bad, in.bad0):
-		return &c25Viol{"C25:call-modified-input-send-packet", fmt.Sprintf("%v modified the caller's SEND packet", c)}
-	}
-	return nil
-}
-
 // one successful call of every API family: recycled state of any family surfaces in the
 // sequence that left it behind
 var c25RetDrain = []c25Call{{"seal-crypto", 1, 33}, {"verity", 0, 15}, {"sendkey-crypto", 0, 16}, {"encrypt-crypto", 1, 15}, {"decrypt-crypto", 0, 33}, {"validate-crypto", 1, 16}}
@@ -388,6 +425,9 @@ func (h *c25Retain) sequence(seq []c25Call, count bool) *c25Viol {
 		if viol == nil {
 			viol = h.atReturn(c, res, strings.Join(names, ", "))
 		}
+		if viol == nil {
+			viol = res.inputViol
+		}
 		if i < len(seq)-1 && res.class != "ok" {
 			failed = true
 		}
@@ -403,6 +443,9 @@ func (h *c25Retain) sequence(seq []c25Call, count bool) *c25Viol {
 			}
 		}
 		if viol == nil {
+			viol = dres.inputViol
+		}
+		if viol == nil {
 			viol = h.later(d, dres, "nothing")
 		}
 	}
@@ -412,11 +455,6 @@ func (h *c25Retain) sequence(seq []c25Call, count bool) *c25Viol {
 		}
 		rest := append(append([]string(nil), names[i+1:]...), "drain(seal, verity, sendkey, encrypt, decrypt, validate)")
 		viol = h.later(c, resv[i], strings.Join(rest, ", "))
-	}
-	for _, c := range seq {
-		if viol == nil {
-			viol = h.inputsIntact(c)
-		}
 	}
 	if count {
 		last := seq[len(seq)-1]
@@ -449,7 +487,7 @@ func (h *c25Retain) sequence(seq []c25Call, count bool) *c25Viol {
 }
 
 func c25RetainNew(r *ev.R) *c25Retain {
-	h := &c25Retain{r: r, first: map[string]int64{}, refs: map[c25Call]c25Res{}}
+	h := &c25Retain{r: r, first: map[string]int64{}, refs: map[c25Call]c25Res{}, bufPlain: make([]byte, 512), bufCipher: make([]byte, 1024), bufSealed: make([]byte, 1024)}
 	for i, cs := range [][2]int{{0, 3}, {4, 15}} {
 		sess, _, v := c25Handshake(cs[0], cs[1])
 		if v != nil {
